@@ -344,9 +344,14 @@ def _dist_native(vc, cfg, est, Pg, B, narg, neutral):
             return
         out = np.asarray(o.value)
         vc.prove("caller-array-unmodified", bool(np.array_equal(B, Bin)))
-        bo = Bc.barycentric_dim_reduction(out)[:, 0] - center[0]
+        nz = [r for r in range(m) if r != zero_row]  # an all-zero row has no chromaticity
+        bo = Bc.barycentric_dim_reduction(out[nz])[:, 0] - center[0]
+        bi = Bc.barycentric_dim_reduction(B[nz])[:, 0] - center[0]
         vc.prove("scaled chromaticities within the chromatic interval (native, 1e-7)", bool(np.all((bo >= lo - 1e-7) & (bo <= hi + 1e-7))))
         vc.prove("total capture kept (native)", bool(np.allclose(out.sum(1), B.sum(1), atol=1e-7)))
+        vc.prove("saturations are contracted, never expanded (native, 1e-7)", bool(np.all(np.abs(bo) <= np.abs(bi) * (1 + 1e-7) + 1e-9)), detail=f"before {bi} after {bo}")
+        if np.all((bi >= lo) & (bi <= hi)):
+            vc.prove("every chromaticity already inside: targets returned unchanged (native)", bool(np.allclose(out, B, atol=1e-9)), detail=f"in {B.tolist()} out {out.tolist()}")
         return
     if Delaunay(bP).find_simplex(center) < 0:
         vc.assume(False, "neutral point not inside this random chromatic gamut")
